@@ -26,6 +26,7 @@ EXPLANATION = (
 EXPLANATION += ' C08.R1 also checks that every scalar value hash is std::hash<T> of the value itself (not of a copy of its representation), that array hashes fold every element, and that equality of two sets compares the sorted maps element-wise. C08.R5 (exposure of finding D7b): while Set replaces the overflow value, no table created with a configured limit is filled through Set.'
 EXPLANATION += " C08.R4 finds the overflow predicate and the overflow-series insertion by what they do (a bool member relating the table size to the limit; a non-overwriting insertion under the overflow key), not by name. C08.R6's insertion gate is a decision table over 'processor is non-null' x 'isPresent returned true', evaluated through callbacks and file-local helpers. C08.R7 accepts emplace followed by an assignment to the found element on the not-inserted outcome."
 ROUND2_EXPLANATION = (' C08.R6 also: FilteringAttributesProcessor::isPresent is true exactly when the allow-list lookup finds the key (decision table). Shared C06.R3: reader fan-out of buildMetrics.')
+ROUND2_EXPLANATION += (" C08.R8: AttributesHashMap::GetAllEnteries hands every entry to the callback and leaves the loop early only on the callback's false; every GetOrSetDefault returns the entry found / inserted under the key asked about (or the overflow helper's result), never one chosen by position; every 'found' test compares find() with end() of the same table.")
 EXPLANATION += ROUND2_EXPLANATION
 NOT_DECIDED = 'hash collision behaviour; conservation of totals through overflow across cycles (arithmetic over histories). The filter clause is decided for synchronous instruments only: for observable instruments the view filter is not applied at all - recorded as finding D20 under C19 (C19.R3), whose check owns meter.cc.'
 
@@ -666,6 +667,105 @@ def rule_r7(ck, prog, rule='C08.R7', setters=('sdk::common::OrderedAttributeMap:
     return cnt
 
 
+def rule_r8_table_access(ck, prog, rule='C08.R8', cls='sdk::metrics::AttributesHashMapWithCustomHash'):
+    """the series table answers for the key it is asked about and its walk visits every series:
+    (a) GetAllEnteries calls the callback for every entry and leaves the loop early only on the callback's false;
+    (b) every GetOrSetDefault returns the aggregation of the entry it looked up / inserted under the given key (or what the
+        overflow helper returns), never an entry chosen by position;
+    (c) "found" is `find(key) != end()` of the same map."""
+    from .common import loop_visits_every_element
+    rec = prog.record(cls)
+    meths = [x for x in prog.funcs.values() if x.cls == rec['qn'] and x.blocks and not x.d.get('lambda')]
+    # (a)
+    for f in sorted([x for x in meths if x.name in ('GetAllEnteries', 'GetAllEntries')], key=lambda x: x.key):
+        g = Graph(prog, f, inline=None, sync_lambdas=False)
+        loops = [n for n in f.nodes if n['k'] in ('forrange', 'for', 'while')]
+        cbp = [p_ for p_ in f.params if 'function_ref' in p_['t'] or 'function<' in p_['t']]
+        calls = [p for p in g.points if p.n is not None and p.f is f and p.n['k'] == 'call' and cbp and
+                 any(f.nodes[j]['k'] == 'ref' and f.nodes[j].get('id') == cbp[0]['id'] for j in ([p.n['obj']] if p.n.get('obj') is not None else []) + ([p.n['fx']] if p.n.get('fx') is not None else []))]
+        if len(loops) != 1 or not calls:
+            ck.inconclusive(rule, f, 'walk-visits-every-series', None, 'loop over the table / callback invocation not recognised')
+            continue
+
+        def cb_false(a, b, lab, _c=calls):
+            if not lab or not isinstance(lab[0], int) or lab[1] is not f:
+                return False
+            core, pol = norm_cond(f, lab[0])
+            return any(core == c_.n['i'] for c_ in _c) and (lab[2] if pol else not lab[2]) is False
+        why = loop_visits_every_element(g, f, loops[0], calls, allowed_exit=cb_false)
+        ck.verdict(why is None, rule, f, 'walk-visits-every-series', loops[0], 'every series is handed to the callback; the walk stops early only when the callback says so' if why is None else
+                   'GetAllEnteries: %s - series are missing from every collection' % why)
+    # (b)
+    for f in sorted([x for x in meths if x.name == 'GetOrSetDefault'], key=lambda x: x.key):
+        g = Graph(prog, f, inline=None, sync_lambdas=False)
+        rd = reaching_defs(g)
+        keys = {p_['id'] for p_ in f.params if 'MetricAttributes' in p_['t'] or 'FilteredOrderedAttributeMap' in p_['t']}
+        keys |= {d['id'] for n in f.nodes if n['k'] == 'declstmt' for d in n['decls'] if 'MetricAttributes' in (d.get('t') or '') or 'FilteredOrderedAttributeMap' in (d.get('t') or '')}
+        site = 'returns-the-looked-up-series@(%s)' % ','.join(p_['t'].replace('const ', '').split('::')[-1].split('<')[0].strip(' &') for p_ in f.params[:2])
+        bad = None
+        n_ret = 0
+        for r in g.returns():
+            if r.n.get('e') is None or r.n['e'] < 0:
+                continue
+            n_ret += 1
+            tbl_calls = []
+            for j in list(subtree_through_locals(f, r.n['e'])) + [r.n['e']]:
+                m = f.nodes[j]
+                if m['k'] == 'call' and m.get('obj') is not None and strip_casts(f, m['obj'])['k'] == 'member' and access_path(f, m['obj']) == ('this', 'hash_map_'):
+                    tbl_calls.append(m)
+            # (the overflow helper, or a sibling overload of GetOrSetDefault - which is checked itself)
+            helper = any(f.nodes[j]['k'] == 'call' and f.nodes[j].get('ck') in prog.funcs and prog.funcs[f.nodes[j]['ck']].cls == f.cls and
+                         ('Attributes' in prog.funcs[f.nodes[j]['ck']].name or prog.funcs[f.nodes[j]['ck']].name == f.name)
+                         for j in list(subtree_through_locals(f, r.n['e'])) + [r.n['e']])
+            if helper and not tbl_calls:
+                continue
+            if not tbl_calls:
+                bad = bad or (r.n, 'a return that does not come from a lookup in the table')
+                continue
+            for m in tbl_calls:
+                nm = strip_targs(m.get('c', '')).rsplit('::', 1)[-1]
+                if nm in ('find', 'emplace', 'try_emplace', 'operator[]', 'insert', 'at'):
+                    a0 = m['args'][0] if m.get('args') else None
+                    refs = {f.nodes[j].get('id') for j in (list(f.subtree(a0)) + [a0] if a0 is not None and a0 >= 0 else []) if f.nodes[j]['k'] == 'ref'}
+                    if not (refs & keys):
+                        bad = bad or (m, '%s with a key other than the one asked about' % nm)
+                elif nm in ('end', 'cend', 'size', 'empty'):
+                    continue
+                else:
+                    bad = bad or (m, 'an entry chosen by %s(), not by the key' % nm)
+        if not n_ret:
+            continue
+        ck.verdict(bad is None, rule, f, site, bad[0] if bad else None, 'every return hands out the entry found / inserted under the given key (or the overflow series)' if bad is None else
+                   'GetOrSetDefault returns %s: the measurement is aggregated into another series' % bad[1])
+    # (c)
+    for f in sorted(meths, key=lambda x: x.key):
+        cnt = 0
+        for n in f.nodes:
+            c = comparison(f, n['i'])
+            if not c or c[0] not in ('==', '!='):
+                continue
+            sides = [strip_casts(f, c[1]), strip_casts(f, c[2])]
+            def is_find(x):
+                x = once_init_(f, x)
+                return x['k'] == 'call' and strip_targs(x.get('c', '')).rsplit('::', 1)[-1] == 'find' and x.get('obj') is not None and access_path(f, x['obj'])[:2] == ('this', 'hash_map_')
+            fs_ = [x for x in sides if is_find(x)]
+            if not fs_:
+                continue
+            other = [x for x in sides if not is_find(x)]
+            cnt += 1
+            ok = bool(other) and other[0]['k'] == 'call' and strip_targs(other[0].get('c', '')).rsplit('::', 1)[-1] in ('end', 'cend') and \
+                other[0].get('obj') is not None and access_path(f, other[0]['obj'])[:2] == ('this', 'hash_map_')
+            ck.verdict(ok, rule, f, 'found-iff-not-end@%s(%d params):%d' % (f.name, len(f.params), cnt), n, 'lookup result compared with end() of the table' if ok else
+                       '%s compares the result of find() with something other than end() of the table: present series are reported missing (a second series is created for the same attributes) or the reverse' % f.name)
+
+
+def once_init_(f, x):
+    from .common import once_init
+    if x['k'] == 'ref' and x.get('sk') == 'local':
+        return once_init(f, x['i'])
+    return x
+
+
 def run(ck, prog):
     ck.doc('C08.R1', 'series key type is a sorted map; its hash folds every key and value; value hashes are std::hash of the value; equality compares contents', 19)
     ck.doc('C08.R2', 'hash typestate: every constructor / mutation of FilteredOrderedAttributeMap ends in UpdateHash()', 5)
@@ -673,6 +773,7 @@ def run(ck, prog):
     ck.doc('C08.R4', 'overflow guard arithmetic; lookup miss -> overflow test -> insertion in every GetOrSetDefault', 5)
     ck.doc('C08.R5', 'a value stored under the shared overflow key is merged, not replaced', 2)
     ck.doc('C08.R6', 'filter gates insertion; filter key lookups use the full view; allowed <=> in the allow-list; the storage\'s processor reaches every key built from caller attributes', 7)
+    ck.doc('C08.R8', 'the series table: the walk visits every series; GetOrSetDefault returns the entry of the key asked about; found <=> find() != end()', 6)
     ck.doc('C08.R7', 'attribute setters store last-write-wins; no other member stores with a non-overwriting call', 4)
     with ck.canary('C08.R2'):
         rule_r2(ck, prog, cls='canary::c08::BadKey')
@@ -688,6 +789,7 @@ def run(ck, prog):
     rule_r6_processor_reaches_key(ck, prog)
     rule_r7(ck, prog)
     rule_r7_bulk(ck, prog)
+    rule_r8_table_access(ck, prog)
     # "the total over all reported series equals everything recorded, for delta and cumulative readers alike": the reader fan-out of
     # buildMetrics (shared with C06) is a prerequisite - a delta report that bypasses the per-reader stash loses series for the others
     from . import c06
